@@ -216,21 +216,30 @@ func genPowerLoss(prop string) func(r *rng, tier string, res *Result) {
 				}
 			} else {
 				if i%4 == 3 {
-					// an earlier recovery (with a torn tail to discard)
+					// an earlier recovery (with a torn tail to discard). What the dead process wrote
+					// and never synced is still volatile: the contract is unchanged by the recovery.
 					g.bigValues = true
-					g.put(g.pick(), g.value())
-					g.put(g.pick(), g.value())
+					for j := 0; j < 1+g.r.intn(8); j++ {
+						k, v := g.pick(), g.value()
+						o.write(string(k), v, false)
+						g.put(k, v)
+						if syncMode {
+							o.syncedNow(g.ref)
+						}
+					}
+					before := copyMap(g.ref)
+					k, v := g.pick(), g.value()
+					o.write(string(k), v, false)
+					g.put(k, v)
 					pts := g.crashPoints()
 					p := pts[g.r.intn(len(pts))]
-					before := copyMap(g.ref)
-					g.put(g.pick(), g.value())
-					pts = g.crashPoints()
-					p = pts[g.r.intn(len(pts))]
 					g.crashLast(before, g.ref, p[0], p[1])
-					// what survived the crash is on disk but was never synced by this process: the
-					// power-loss contract starts from the state the recovery found
-					o.syncedNow(g.ref)
 					g.c.tag("after_recovery")
+					if g.r.chance(50) {
+						// Sync right after the recovery: everything the database contains now is covered
+						g.sync()
+						o.syncedNow(g.ref)
+					}
 				}
 				ops := 10 + g.r.intn(60)
 				clone := func() *plOracle {
